@@ -34,7 +34,7 @@ def aeq(x,y):
     x=np.asarray(x); y=np.asarray(y)
     return x.shape==y.shape and np.array_equal(x,y,equal_nan=x.dtype.kind=='f')
 if __name__=='__main__':
-  for it in range(40000):
+  for it in range(int(__import__("os").environ.get("RECON_N", 40000))):
     a=rand_arr(); n=len(a)
     r,err=run(lambda: RunLengthArray.from_array(a))
     tag=(a.dtype.kind,)
